@@ -53,22 +53,22 @@ def classify(specs, size):
 
 
 def runs(mask):
-    """Maximal runs of set bits as half-open (start, end) pairs, ascending."""
+    """Maximal runs of set bits as half-open (start, end) pairs, ascending (linear in the number of bits)."""
+    if not mask:
+        return []
+    bits = bin(mask)[:1:-1]  # least significant bit first
     out = []
     pos = 0
-    while mask:
-        if mask & 1:
-            start = pos
-            while mask & 1:
-                mask >>= 1
-                pos += 1
-            out.append((start, pos))
-        else:
-            # skip zeros
-            low = (mask & -mask).bit_length() - 1
-            mask >>= low
-            pos += low
-    return out
+    n = len(bits)
+    while True:
+        start = bits.find("1", pos)
+        if start < 0:
+            return out
+        end = bits.find("0", start)
+        if end < 0:
+            end = n
+        out.append((start, end))
+        pos = end
 
 
 def structural_problem(result, size):
